@@ -149,7 +149,20 @@ Emit ==
         PrintT(<<"BEH", ToJson([recs  |-> [i \in 1..Len(F.idx) |->
                                              [len |-> F.idx[i].len, w |-> F.idx[i].lb, t |-> F.idx[i].lby - F.idx[i].lb]],
                                  cut   |-> Len(F.data), rid |-> m.f - 1, start |-> m.start, stop |-> m.stop,
-                                 path  |-> hist.path, fills |-> hist.fills, last |-> m.last])>>)
+                                 path  |-> hist.path, fills |-> hist.fills, last |-> m.last,
+                                 \* 1: the reader was left in front of (or inside) the line terminator behind `stop`,
+                                 \* not at the file offset of `stop`: the seam an adjacent fetch must survive
+                                 seam  |-> IF m.last = "done" /\ LogicalPos(m) # SeekPos(Row(F, m), m.stop)
+                                           THEN 1 ELSE 0])>>)
+
+\* where a completed buffer read leaves the source: never before the last needed base, never behind the
+\* file offset of `stop`; strictly in between exactly when the terminator behind a line-aligned `stop`
+\* was not (completely) buffered -- every read therefore has to seek (ReadBegin does)
+RestingPlace ==
+    (Active /\ m.last = "done" /\ m.stop > m.start) =>
+        /\ LogicalPos(m) >= NeedEnd(Row(F, m), m.start, m.stop)
+        /\ LogicalPos(m) <= SeekPos(Row(F, m), m.stop) \/ m.stop = Row(F, m).len
+        /\ LogicalPos(m) < SeekPos(Row(F, m), m.stop) => m.stop % Row(F, m).lb = 0
 
 \* termination: every step inside a read decreases the measure
 Terminates == [][(m.phase # "idle" /\ m'.phase # "idle") => Measure(F, m') < Measure(F, m)]_vars
